@@ -298,8 +298,38 @@ def _update_field_metadata(cls: T) -> T:
     return cls
 
 
+class _ClassKey(str):
+    """Qualified name of a class that is used as non-SymPy attribute of an expression.
+
+    The key is a `str`, so that it hashes and sorts like the qualified name of the class
+    (which makes the hash of an expression reproducible if :code:`PYTHONHASHSEED` is
+    set). Two keys are only equal, however, if they stand for the same class object, so
+    that two distinct classes that carry the same name (for instance a class that was
+    redefined in an interactive session, or classes created by the same factory
+    function) are not mistaken for the same attribute.
+    """
+
+    __slots__ = ("cls",)
+    cls: type
+
+    def __new__(cls, class_obj: type) -> _ClassKey:  # noqa: PYI034
+        self = super().__new__(cls, f"{class_obj.__module__}.{class_obj.__qualname__}")
+        self.cls = class_obj
+        return self
+
+    def __eq__(self, other: object) -> bool:
+        if isinstance(other, _ClassKey):
+            return self.cls is other.cls
+        return super().__eq__(other)
+
+    def __ne__(self, other: object) -> bool:
+        return not self == other
+
+    __hash__ = str.__hash__
+
+
 @overload
-def _get_hashable_object(obj: type) -> str: ...  # type: ignore[overload-overlap]
+def _get_hashable_object(obj: type) -> _ClassKey: ...  # type: ignore[overload-overlap]
 @overload
 def _get_hashable_object(obj: H) -> H: ...
 @overload
@@ -308,7 +338,7 @@ def _get_hashable_object(obj):
     if obj is None:
         obj = type(None)
     if isclass(obj):
-        return f"{obj.__module__}.{obj.__qualname__}"
+        return _ClassKey(obj)
     try:
         hash(obj)
     except TypeError:
